@@ -483,6 +483,20 @@ def check(ck):
             script = ddl + "\n" + ftext.replace("{T}", ref)
             run_case(ck, "follower-x-qualification-x-mode", (ftext, q), script, all_modes if not quick else some_modes(4), some_combos(2, thorough_all=False),
                      expect=[exp[:3] + (cols,)], tags=("follower:" + ftag,))
+    # (iv-b) a table created with a three-part name (project.schema.table) and altered / indexed through its two-part
+    # name: the statement still names that table (projects are not part of a table's identity in any mode)
+    for fi, (ftext, ftag, ftr) in enumerate(FOLL):
+        if quick and fi % 3:
+            continue
+        for q in [x for x in QUALS if x[1]]:
+            ddl, ref, exp = make_table("t1", qual=q)
+            if ref.count(".") != 2:
+                continue
+            ref2 = ref.split(".", 1)[1]
+            cols = ftr(exp[3]) if ftr else exp[3]
+            script = ddl + "\n" + ftext.replace("{T}", ref2)
+            run_case(ck, "follower-without-project-x-mode", (ftext, q), script, all_modes if not quick else ["bigquery"] + some_modes(2), some_combos(2, thorough_all=False),
+                     expect=[exp[:3] + (cols,)], tags=("follower:" + ftag,))
     # (v) non-table entities and column-less tables (CLONE / LIKE) alone (they are interleaved with tables in (vi))
     for text, ident in OTHERS:
         e = ident + ((None if ident[0] != "table_name" else []),)
